@@ -14,6 +14,7 @@ CHECK = {
     "technique": "property-based testing (rapid) with injected faults (scripted peers, silent endpoints, stream corruption, shutdown points): conservation invariant on obtainable slots after quiescence",
     "runs": [
         {"name": "out", "run": "^TestC16_Outbound$", "checks": {"quick": 25, "thorough": 50}, "shards": {"quick": 6, "thorough": 16}, "rounds": {"quick": 1, "thorough": 4}},
+        {"name": "queuerace", "run": "^TestC16_GossipQueueRace$", "checks": {"quick": 15, "thorough": 40}, "shards": {"quick": 4, "thorough": 16}},
         {"name": "reuse", "run": "^TestC16_Reuse$", "checks": {"quick": 2, "thorough": 12}, "shards": {"quick": 6, "thorough": 16}},
         {"name": "in", "run": "^TestC16_Inbound$", "checks": {"quick": 8, "thorough": 20}, "shards": {"quick": 8, "thorough": 16}, "rounds": {"quick": 1, "thorough": 3}},
     ],
@@ -24,5 +25,5 @@ CHECK = {
         "no caller gossips through an instance after stopping it (gossip rounds are only drawn before the stop point)",
         "a peer that opens a uTP connection and closes it without data keeps the receiver reading until the 60 s read time-out; that outcome is only used in runs ended by Stop()",
     ],
-    "required_classes": {"quick": ["unhappy-path", "limit-reached", "stop-mid-way", "peak-equals-limit", "gossip-rounds", "no-workers", "finish:stop", "late-release-of-finished-transfer"]},
+    "required_classes": {"quick": ["unhappy-path", "limit-reached", "stop-mid-way", "peak-equals-limit", "gossip-rounds", "no-workers", "finish:stop", "late-release-of-finished-transfer", "gossip-rounds-competed-for-the-last-places", "second-wave-while-limit-transfers-are-in-their-data-phase"]},
 }
